@@ -10,6 +10,9 @@ class EventControlT final
 	template <typename, typename>
 	friend class R_;
 
+	template <typename, typename, Prong, typename...>
+	friend struct OS_;
+
 	template <typename, typename>
 	friend struct PreReactWrapperT;
 
